@@ -83,6 +83,8 @@ def parse_struct_comment(repo: Repo, ci: ClassInfo, line: str) -> Optional[Tuple
 
 
 def preceding_comment(repo: Repo, ci: ClassInfo, node: ast.AST) -> Optional[Tuple[str, str, int, Optional[bool]]]:
+    if getattr(node, "_synthetic", False):
+        return None             # produced by inlining / unrolling: the comment above the original line describes something else
     lines = ci.file.text.splitlines()
     i = node.lineno - 2
     while i >= 0 and lines[i].strip() == "":
@@ -94,6 +96,8 @@ def preceding_comment(repo: Repo, ci: ClassInfo, node: ast.AST) -> Optional[Tupl
 
 def writer_slots(repo: Repo, ci: ClassInfo, fn: ast.FunctionDef, helper: ClassInfo, length_of) -> List[Slot]:
     """Slots written by a function using `w = _StructWriter(f)` and `f.write(...)`, in source order."""
+    from . import inline
+    fn = inline.normalize(repo, ci, fn)
     meths = struct_methods(repo, helper)
     wvar = fvar = None
     for n in walk_no_nested(fn):
@@ -106,7 +110,7 @@ def writer_slots(repo: Repo, ci: ClassInfo, fn: ast.FunctionDef, helper: ClassIn
         raise AnchorMissing(f"{helper.name} instance in {fn.name}")
     slots: List[Slot] = []
     calls = [n for n in walk_no_nested(fn) if isinstance(n, ast.Call) and isinstance(n.func, ast.Attribute)]
-    calls.sort(key=lambda c: (c.lineno, c.col_offset))
+    calls.sort(key=lambda c: (inline.pos(c), c.col_offset))
     for c in calls:
         recv = norm(c.func.value)
         if recv == wvar:
@@ -133,6 +137,8 @@ def writer_slots(repo: Repo, ci: ClassInfo, fn: ast.FunctionDef, helper: ClassIn
 
 
 def reader_slots(repo: Repo, ci: ClassInfo, fn: ast.FunctionDef, helper: ClassInfo) -> List[Slot]:
+    from . import inline
+    fn = inline.normalize(repo, ci, fn)
     meths = struct_methods(repo, helper)
     rvar = None
     for n in walk_no_nested(fn):
@@ -143,7 +149,7 @@ def reader_slots(repo: Repo, ci: ClassInfo, fn: ast.FunctionDef, helper: ClassIn
         raise AnchorMissing(f"{helper.name} instance in {fn.name}")
     slots: List[Slot] = []
     stmts = [n for n in walk_no_nested(fn) if isinstance(n, (ast.Assign, ast.Expr))]
-    stmts.sort(key=lambda s: (s.lineno, s.col_offset))
+    stmts.sort(key=lambda s: (inline.pos(s), s.col_offset))
     for st in stmts:
         calls = [c for c in ast.walk(st.value) if isinstance(c, ast.Call) and isinstance(c.func, ast.Attribute)
                  and norm(c.func.value) == rvar]
@@ -217,11 +223,30 @@ class LenEval:
             w = max(0, b - a)
             return (min(max(0, lo - a), w), min(max(0, hi - a), w))
         if isinstance(e, ast.BinOp) and isinstance(e.op, ast.Add):
+            pad = self._pad_amount(e.right, norm(e.left), ci)
+            if pad is not None:
+                lo, hi = self.of(e.left, ci, env)           # X + [c] * (K - len(X))  has length max(len(X), K)
+                return (max(lo, pad), max(hi, pad))
             a, b = self.of(e.left, ci, env), self.of(e.right, ci, env)
             return (a[0] + b[0], min(INF, a[1] + b[1]))
+        if isinstance(e, ast.BinOp) and isinstance(e.op, ast.Mult):
+            for seq, cnt in ((e.left, e.right), (e.right, e.left)):
+                if isinstance(seq, (ast.List, ast.Tuple, ast.Constant)):
+                    try:
+                        n = repo.fold(cnt, ci=ci)
+                        base = self.of(seq, ci, env)
+                        if isinstance(n, int):
+                            return (base[0] * max(0, n), base[1] * max(0, n))
+                    except NotConst:
+                        pass
+        if isinstance(e, (ast.List, ast.Tuple)) and not any(isinstance(x, ast.Starred) for x in e.elts):
+            return (len(e.elts), len(e.elts))
         if isinstance(e, (ast.ListComp, ast.GeneratorExp)) and len(e.generators) == 1:
             g = e.generators[0]
-            lo, hi = self.of(g.iter, ci, env)
+            try:
+                lo, hi = self.of(g.iter, ci, env)
+            except Unknown:
+                lo, hi = 0, INF           # a list of unknown length
             return (0 if g.ifs else lo, hi)
         if isinstance(e, ast.Call):
             f = norm(e.func)
@@ -250,6 +275,17 @@ class LenEval:
                     return (n, n)
                 except NotConst:
                     pass
+                from . import codec
+                pf = codec.parse_fmt(repo, ci, fm)
+                if pf is not None and pf.variable and pf.count:
+                    try:
+                        ce = ast.parse(pf.count, mode="eval").body
+                    except SyntaxError:
+                        ce = None
+                    if isinstance(ce, ast.Call) and norm(ce.func) == "len" and len(ce.args) == 1:
+                        lo, hi = self.of(ce.args[0], ci, env)
+                        sz = struct.calcsize((pf.order or "<") + pf.codes)
+                        return (lo * sz, min(INF, hi * sz))
                 # "<" + "H" * len(values)
                 if isinstance(fm, ast.BinOp) and isinstance(fm.op, ast.Add) and isinstance(fm.right, ast.BinOp) \
                         and isinstance(fm.right.op, ast.Mult):
@@ -276,6 +312,31 @@ class LenEval:
             return self.container_size(ci)
         raise Unknown(norm(e))
 
+    def _pad_amount(self, e: ast.expr, target: str, ci) -> Optional[int]:
+        """K if `e` is `[c] * (K - len(<target>))`, `repeat(c, max(0, K - len(<target>)))` or the like."""
+        cnt = None
+        if isinstance(e, ast.BinOp) and isinstance(e.op, ast.Mult):
+            for seq, c in ((e.left, e.right), (e.right, e.left)):
+                if isinstance(seq, (ast.List, ast.Tuple)) and len(seq.elts) == 1:
+                    cnt = c
+        if isinstance(e, ast.Call) and norm(e.func).split(".")[-1] == "repeat" and len(e.args) == 2:
+            cnt = e.args[1]
+        if cnt is None:
+            return None
+        if isinstance(cnt, ast.Call) and norm(cnt.func) == "max" and len(cnt.args) == 2:
+            zero = [a for a in cnt.args if isinstance(a, ast.Constant) and a.value == 0]
+            rest = [a for a in cnt.args if not (isinstance(a, ast.Constant) and a.value == 0)]
+            if len(zero) == 1 and len(rest) == 1:
+                cnt = rest[0]
+        if isinstance(cnt, ast.BinOp) and isinstance(cnt.op, ast.Sub) and isinstance(cnt.right, ast.Call) and norm(cnt.right.func) == "len" \
+                and len(cnt.right.args) == 1 and norm(cnt.right.args[0]) == target:
+            try:
+                k = self.repo.fold(cnt.left, ci=ci)
+            except NotConst:
+                return None
+            return k if isinstance(k, int) and k >= 0 else None
+        return None
+
     def container_size(self, ci: ClassInfo) -> Interval:
         """Size of a dict subclass whose __init__ calls super().__init__(<genexp over range(a, b)>)."""
         init = ci.methods.get("__init__")
@@ -290,9 +351,64 @@ class LenEval:
 
     def of_function(self, fn: ast.FunctionDef, ci: ClassInfo) -> Interval:
         """Length interval of the value returned by a small getter (straight-line + pad loops)."""
+        from . import inline
+        fn = inline.flatten(self.repo, ci, fn)
+        # locals bound once to an integer constant are read as that constant
+        consts: Dict[str, ast.expr] = {}
+        cnt: Dict[str, int] = {}
+        for n in walk_no_nested(fn):
+            if isinstance(n, ast.Name) and isinstance(n.ctx, ast.Store):
+                cnt[n.id] = cnt.get(n.id, 0) + 1
+        for n in walk_no_nested(fn):
+            if isinstance(n, ast.Assign) and len(n.targets) == 1 and isinstance(n.targets[0], ast.Name) and cnt.get(n.targets[0].id) == 1 \
+                    and isinstance(n.value, ast.Constant) and isinstance(n.value.value, int):
+                consts[n.targets[0].id] = n.value
+        if consts:
+            fn = inline._Rename(dict(consts)).visit(fn)
         env: Dict[str, Interval] = {}
         result: Optional[Interval] = None
         for st in stmts_of(fn):
+            if isinstance(st, ast.Assign) and len(st.targets) == 1 and isinstance(st.targets[0], ast.Constant):
+                continue          # the substituted constant definition itself
+            # v.extend(<padding up to K>) / v += <padding up to K>
+            padded = None
+            if isinstance(st, ast.Expr) and isinstance(st.value, ast.Call) and isinstance(st.value.func, ast.Attribute) \
+                    and st.value.func.attr == "extend" and isinstance(st.value.func.value, ast.Name) and len(st.value.args) == 1:
+                padded = (st.value.func.value.id, st.value.args[0])
+            if isinstance(st, ast.AugAssign) and isinstance(st.op, ast.Add) and isinstance(st.target, ast.Name):
+                padded = (st.target.id, st.value)
+            if padded is not None and padded[0] in env:
+                k = self._pad_amount(padded[1], padded[0], ci)
+                lo, hi = env[padded[0]]
+                if k is not None:
+                    env[padded[0]] = (max(lo, k), max(hi, k))
+                    continue
+                try:
+                    a = self.of(padded[1], ci, env)
+                    env[padded[0]] = (lo + a[0], min(INF, hi + a[1]))
+                    continue
+                except Unknown:
+                    raise Unknown("extension of unknown length")
+            # for … in ITER: v += [a, b] / v.append(x) / v.extend([a, b])
+            if isinstance(st, ast.For) and not st.orelse and len(st.body) == 1:
+                b = st.body[0]
+                acc = None
+                if isinstance(b, ast.AugAssign) and isinstance(b.op, ast.Add) and isinstance(b.target, ast.Name) and isinstance(b.value, (ast.List, ast.Tuple)):
+                    acc = (b.target.id, len(b.value.elts))
+                elif isinstance(b, ast.Expr) and isinstance(b.value, ast.Call) and isinstance(b.value.func, ast.Attribute) \
+                        and isinstance(b.value.func.value, ast.Name) and len(b.value.args) == 1:
+                    if b.value.func.attr == "append":
+                        acc = (b.value.func.value.id, 1)
+                    elif b.value.func.attr == "extend" and isinstance(b.value.args[0], (ast.List, ast.Tuple)):
+                        acc = (b.value.func.value.id, len(b.value.args[0].elts))
+                if acc is not None and acc[0] in env:
+                    try:
+                        ilo, ihi = self.of(st.iter, ci, env)
+                    except Unknown:
+                        raise Unknown("loop iterable of unknown length")
+                    lo, hi = env[acc[0]]
+                    env[acc[0]] = (lo + acc[1] * ilo, min(INF, hi + acc[1] * ihi))
+                    continue
             if isinstance(st, ast.Assign) and len(st.targets) == 1 and isinstance(st.targets[0], ast.Name):
                 try:
                     env[st.targets[0].id] = self.of(st.value, ci, env)
